@@ -526,6 +526,8 @@ def setitem(it, base, idx, val):
                 base.items[:] = items
         return
     if isinstance(base, ListObj):
+        if it.list_hook is not None:
+            it.list_hook(it, base, "setitem", [idx, val])
         if not base.symbolic and isinstance(idx, int):
             n = len(base.items)
             j = idx + n if idx < 0 else idx
